@@ -2100,9 +2100,9 @@ var simNontrivial = map[string][]string{
 
 func simCaseCount(e vEnv) int64 {
 	if e.Tier == "thorough" {
-		return 200000
+		return 600000
 	}
-	return 4000
+	return 24000
 }
 
 // TestVerifPoolSim is the entry point used by vcheck (one batch per process).
